@@ -27,7 +27,7 @@ def run(ctx, model_available=True):
         res["diffs"] = res["diffs"] + diffs[:30]
         res["comparisons"]["unit_comparisons"] = compared
     # (T2) the translated source of the event handlers under the mini-Python semantics, against CPython
-    return py_checks.merge(res, ctx, ["event"], n_each=90, model_available=model_available)
+    return py_checks.merge(res, ctx, ["event", "eventsetup"], n_each=90, model_available=model_available)
 
 
 def search(ctx, res):
